@@ -39,6 +39,8 @@ pub struct CoreStats {
     pub budget_exceeded: bool,
     /// voluntary switches between simulated workers inside/between tasks
     pub preemptions: u64,
+    /// atomic / lock operations of the code under test that were scheduling points (std_shim)
+    pub sync_points: u64,
 }
 
 impl CoreStats {
@@ -209,6 +211,11 @@ impl Sim for SimHandle {
             // between tasks switches are cheap and the interesting ones; inside a task rarer
             Point::TaskStart | Point::TaskEnd => (c.preempt_16 * 2).min(16),
             Point::Seam => c.preempt_16,
+            // an atomic or lock operation reached through quizx::verif::std_shim
+            Point::Sync => {
+                c.stats.sync_points += 1;
+                c.preempt_16
+            }
         };
         if p16 == 0 || others == 0 {
             return None;
